@@ -38,5 +38,14 @@ func editCorpus() []string {
 		"a = <<-EOT\n\u3000x ${v}\n\u3000\u3000y\n\u3000EOT\n",
 		"a = <<-EOT\n\t\tx\n\t\t\ty\n\t\tEOT\n",
 		"a = <<-EOT\n  ${v} x\n    y\n  EOT\n",
+		// a carriage return that is not part of CRLF (one column, no newline) in
+		// every token kind that can hold one, with content after it on the line
+		"a = [1, /* c\rd */ 2] # e\rf\n",
+		"a = 1 \r b = \"s\rt${v}u\" // g\rh\n",
+		"a = <<EOT\nx\ry ${v} z\r\nw %{ if t }\rq%{ endif } r\nEOT\n",
+		"a = \"${v /*\r*/ }x\" /* i */ b = 2\n",
+		// attribute-only (legacy) splats with zero, one, two and three steps after the star
+		"a = [l2.*, l2.*.a, l2.*.a.0, o.a.*.b.0.c]\n",
+		"a = l2 . * . a . 0\n",
 	}
 }
